@@ -74,6 +74,12 @@ fn periodic(gen: usize, p: usize, n: usize, base: &[u8]) -> Vec<u8> {
         2 => (0..p).map(|i| if i < 4 { i as u8 + 1 } else { 0 }).collect(),
         // "index table": (i mod p) as a byte — the period contains near-copies of itself at shift 256
         3 => (0..p).map(|i| i as u8).collect(),
+        // 30 payload bytes, then a run of equal bytes to the end of the period
+        4 => (0..p).map(|i| if i < 30.min(p) { base[i] } else { 0 }).collect(),
+        // a run of zeros with a 1-byte marker
+        5 => (0..p).map(|i| if i == 0 { 0xA7 } else { 0 }).collect(),
+        // a table of boolean flags (two-valued, pseudo-random)
+        6 => (0..p).map(|i| ((base[i % base.len()] >> 3) ^ (i as u8 >> 1)) & 1).collect(),
         _ => (0..p).map(|i| ((i * 7) % 3) as u8 + if i % 11 == 0 { 1 } else { 0 }).collect(),
     };
     (0..n).map(|i| period[i % p]).collect()
@@ -192,6 +198,17 @@ fn explore(ctx: &Ctx) -> Outcome {
     }
     for (gen, p, n) in [(2usize, 627usize, 1_200_000usize), (3, 872, 700_000), (2, 640, 1_000_000), (3, 1500, 700_000)] {
         grid.push((gen, p, n));
+    }
+    // MANY periods of low-entropy content (long equal runs / two-valued tables inside the
+    // period): a loss of a few bytes per period exceeds the bound only after dozens of periods
+    for &p in &[100usize, 130, 300, 1000, 2100, 4096] {
+        for gen in 4..7 {
+            for n in [13_000usize, 65_536, 300_000] {
+                if n > p {
+                    grid.push((gen, p, n));
+                }
+            }
+        }
     }
     let t = grid
         .par_iter()
